@@ -67,6 +67,7 @@ func main() {
 			fmt.Println(funcKey(f))
 		}
 		dumpLayouts(p)
+		dumpShapes(p)
 		return
 	}
 	if t := os.Getenv("VERIF_TIER"); t != "" && *tier == "" {
